@@ -74,7 +74,14 @@ impl Prop for C06 {
             r.label("swap_sensitive");
         }
         let ((e, buf), (e_again, buf_again)) = encode_twice_in(&case.env, &case.call, BIG, |i| 0xD0 | (i as u8 & 0x0F));
-        let Enc::Ok(len) = e else { return r };
+        let len = match e {
+            Enc::Ok(n) => n,
+            other => {
+                // the quantifier covers every value of every parameter: each must be encodable
+                r.fail(format!("C06:{}:valid_arguments_not_encoded", kind), format!("the request encoder returned {:?} for parameters inside the property's quantifier: {:?} (context EIDs {:#04x}/{:#04x})", other, case.call, case.env.eid_req, case.env.eid_resp));
+                return r;
+            }
+        };
         // the same request encoded again on the same context has the same body
         // (instance ID 0 every time, nothing consumed)
         match e_again {
